@@ -99,8 +99,11 @@ def build(ctx, case):
     # a non-uniform column: 2-4 distinct waters distributed over the cells
     waters = [rand_solution(r, "XX", dilute=(k % 2 == 1)) for k in range(r.randint(2, 4))]
     cellnums = list(range(0, n + 2)) + (list(range(n + 2, 2 * n + 2)) if stag else [])
+    edge = kind == "disp" and n >= 3 and r.random() < 0.35
     for k_, c in enumerate(cellnums):
         w = waters[k_] if k_ < 2 else r.choice(waters)      # inflow and first cell always differ
+        if edge:
+            w = waters[0] if c in (0, n + 1) else waters[1]      # a uniform dilute column between concentrated boundary waters: any overshoot leaves the hull
         t += w.replace("SOLUTION XX", "SOLUTION %d" % c)
         if stag and c > n + 1:
             t += " -water 0.5\n"
@@ -130,6 +133,24 @@ def build(ctx, case):
         bc = (r.choice(["flux", "constant", "closed"]), r.choice(["flux", "constant", "closed"]))
         disp, diffc = r.choice([0.0, 0.002, 0.01, 0.05]), r.choice([0.0, 1e-9, 3e-10])
     tstep = r.choice([100, 1000, 3600, 1e4])
+    if edge:
+        # boundary-dominated mixing: short end cells next to constant-concentration boundaries and a time step that needs several mixing sub-steps
+        # (the number of sub-steps is derived from the largest mixing factor, the end cells' factors with the boundary solutions included)
+        base = r.choice([1.0, 0.1, 0.05])
+        ends = r.choice(["first", "last", "both"])
+        ls = [base] * n
+        bcl = [r.choice(["flux", "closed", "constant"]), r.choice(["flux", "closed", "constant"])]
+        if ends in ("first", "both"):
+            ls[0] = base * r.choice([0.1, 0.2, 0.5])
+            bcl[0] = "constant"
+        if ends in ("last", "both"):
+            ls[-1] = base * r.choice([0.1, 0.2, 0.5])
+            bcl[1] = "constant"
+        lengths = " ".join(gens.fmt(x) for x in ls)
+        direction, bc = "diffusion_only", tuple(bcl)
+        disp, diffc = 0.0, 1e-9
+        tstep = float(gens.fmt(r.choice([0.05, 0.3, 1.0, 3.0]) * base * base / diffc))
+        info["eqlen"] = False
     t += "TRANSPORT\n -cells %d\n -shifts %d\n -lengths %s\n -time_step %s\n -flow_direction %s\n -boundary_conditions %s %s\n -dispersivities %s\n -diffusion_coefficient %s\n" % (
         n, shifts, lengths, gens.fmt(tstep), direction, bc[0], bc[1], gens.fmt(disp), gens.fmt(diffc))
     t += " -punch_cells 1-%d\n -punch_frequency 1\n -print_frequency 1000\n" % (2 * n + 1 if stag else n)
@@ -163,6 +184,10 @@ def run_case(ctx, case):
         et = ""
         for x in sn:
             et = et or x["error"].get("text", "").strip().split("\n")[0]
+        if "Negative concentration" in et and not info["multi_d"]:
+            # with a single diffusion coefficient every cell is a convex mix of its neighbours: a negative concentration means a mixing fraction left [0, 1]
+            return Result(VIOLATED, key="C11/negative-concentration/%s" % info["kind"], what="%s: transport stops with '%s' (%s)" % (case["id"], " ".join(et.split())[:90], info),
+                          sample=dict(id=case["id"], info=info))
         return Result(INCONCLUSIVE, reason="run reports errors: " + " ".join(et.split())[:50])
 
     def table(snap):
@@ -229,8 +254,8 @@ def run_case(ctx, case):
                 if kind == "closed":
                     a = sum(ref[c]["cb"] for c in allcells)
                     b = sum(cur[c]["cb"] for c in allcells)
-                    tot = sum(abs(ref[c]["tm_Cl"]) + abs(ref[c]["tm_Na"]) + abs(ref[c]["tm_K"]) + abs(ref[c]["tm_Ca"]) for c in allcells) + 1e-12
-                    if abs(a - b) > 1e-9 * tot:
+                    tot = sum(abs(ref[c]["tm_%s" % e]) for c in allcells for e in els) + 1e-12      # every recorded ion, not four of them (a column of Li/Mg/Br waters has none of those)
+                    if abs(a - b) > 1e-9 * tot + 1e-16:
                         findings.append(("C11/charge/%s" % kind, "%s: column charge changes from %.6e to %.6e eq (shift %d), ion inventory %.3e" % (case["id"], a, b, st, tot)))
                 if findings:
                     break
@@ -277,6 +302,30 @@ def run_case(ctx, case):
                     break
             if findings:
                 break
+    # (c') the hull can only shrink: after every shift the column lies inside the hull of the column before that shift and the boundary solutions
+    if kind in ("disp", "closed") and not info["multi_d"] and not findings:
+        outside = [c for c in init if c not in mobile]          # boundary and stagnant solutions as defined
+        prevcol = {c: init[c] for c in mobile if c in init}
+        for st in [x for x in steps if x > 0]:
+            cur = by_step[st]
+            if not all(c in cur for c in mobile):
+                break
+            pool_ = list(prevcol.values()) + [init[c] for c in outside] + [cur[c] for c in cur if c not in mobile]
+            for e in els:
+                lo_, hi_ = min(d["c_%s" % e] for d in pool_), max(d["c_%s" % e] for d in pool_)
+                tol = 1e-9 * max(hi_, 1e-12) + 1e-15
+                for c in mobile:
+                    v = cur[c]["c_%s" % e]
+                    nchk += 1
+                    if v < lo_ - tol or v > hi_ + tol:
+                        findings.append(("C11/hull-step/%s" % kind, "%s: %s in cell %d after shift %d is %.12g mol/kgw, outside [%.12g, %.12g] spanned by the column before that shift and the boundary / stagnant solutions (%s)" % (
+                            case["id"], e, c, st, v, lo_, hi_, info)))
+                        break
+                if findings:
+                    break
+            if findings:
+                break
+            prevcol = {c: cur[c] for c in mobile}
     uniform = all(abs(init[c]["c_%s" % e] - init[0]["c_%s" % e]) < 1e-15 for c in init for e in els)
     sig = "%s|%s|%s-%s|stag%d|md%d|imp%d|%s" % (kind, info.get("direction"), info.get("bc", ("", ""))[0], info.get("bc", ("", ""))[1], info["stag"], info["multi_d"], info["implicit"],
                                                "eq" if info["eqlen"] else "uneq")
